@@ -9,14 +9,15 @@ import (
 
 func main() {
 	concfs.Main("C06", "model_checking", func(tier string) concfs.Plan {
-		pl := concfs.Plan{ID: "C06", Oracle: concfs.OrLinear, Bound: 2, PerProg: 20 * time.Second}
+		// quick runs the pairs to the same preemption bound as thorough (3): the whole
+		// tier is a few seconds on 16 cores
+		pl := concfs.Plan{ID: "C06", Oracle: concfs.OrLinear, Bound: 3, PerProg: 20 * time.Second}
 
 		for _, fs := range []string{"MemFS", "OrefaFS"} {
 			pl.Programs = append(pl.Programs, concfs.Pairs(fs, false, concfs.Templates(fs, false, false))...)
 		}
 
 		if tier == "thorough" {
-			pl.Bound = 3
 			pl.PerProg = 60 * time.Second
 
 			for _, fs := range []string{"MemFS", "OrefaFS"} {
